@@ -24,6 +24,8 @@ const (
 	XLogRecordSize  = 24 // sizeof(XLogRecord)
 	ShortHeaderSize = 24 // sizeof(XLogPageHeaderData)
 	LongHeaderSize  = 40 // sizeof(XLogLongPageHeaderData)
+
+	XLogRecordMaxSize = 1020 * 1024 * 1024 // largest xl_tot_len PostgreSQL writes (xlogrecord.h)
 )
 
 // Page info flags
@@ -206,8 +208,10 @@ func parseWALPage(data []byte, baseOffset uint64, pageNum int, following []byte)
 
 		recData := data[pos:]
 		// A record longer than what is left of the page continues after the headers of the following pages
-		// (XLP_FIRST_IS_CONTRECORD, xlp_rem_len): put it together so that its block references can be parsed.
-		if totalLen := int(binary.LittleEndian.Uint32(recData[0:4])); totalLen > len(recData) && totalLen <= WALPageSize*2 {
+		// (XLP_FIRST_IS_CONTRECORD, xlp_rem_len), over as many pages as it takes: put it together so that its
+		// block references can be parsed.  Only attempted when the following pages can hold what is missing,
+		// so nothing larger than the input is ever allocated.
+		if totalLen := int(binary.LittleEndian.Uint32(recData[0:4])); totalLen > len(recData) && totalLen-len(recData) <= len(following) {
 			if cont := continuationData(following, totalLen-len(recData)); cont != nil {
 				recData = append(append(make([]byte, 0, totalLen), recData...), cont...)
 			}
@@ -282,7 +286,7 @@ func parseXLogRecord(data []byte, lsn uint64, magic uint16) (*WALRecord, int) {
 	}
 
 	totalLen := binary.LittleEndian.Uint32(data[0:4])
-	if totalLen < XLogRecordSize || totalLen > WALPageSize*2 {
+	if totalLen < XLogRecordSize || totalLen > XLogRecordMaxSize {
 		return nil, 0
 	}
 
